@@ -336,7 +336,7 @@ and coordinate-release events), and empties it.  (Whenever `process_presses` act
 leaves the queue untouched — `chord_v2_activates_once_and_exactly` — and every arm that gives up
 starts the cool-down.) -/
 theorem chord_v2_unmatched_keys_are_forwarded :
-    (∀ (s : ChV2) (layer : Nat) (ps : List Nat) (rf : Bool) (p1 : Nat),
+    (∀ (s : ChV2) (layer : Nat) (ps : List Nat) (rf : Option Nat) (p1 : Nat),
       collectPresses s.queue [] = .ok (ps, rf) → ps.head? = some p1 → s.cfg.get p1 = none →
       processPresses s layer = .ok { s with ticksToIgnore := s.cfg.minIdle }) ∧
     (∀ (s s' : ChV2) (layer : Nat) (dq : List Queued), s.ticksToIgnore > 0 → s.queue.length + 2 ≤ DRAIN_Q_LEN →
@@ -473,17 +473,17 @@ with the differential oracle): the same key pressed twice in the queue (impossib
 stops at the first release of a collected key), and pressed sets that are not a chord
 but have a chord as a proper prefix (the backtracking arm). -/
 theorem chord_v2_exact_set_partial (s : ChV2) (layer : Nat) (ps : List Nat) (p1 : Nat) (possible : List ChordV2) (C : ChordV2)
-    (rf : Bool) (hcp : collectPresses s.queue [] = .ok (ps, rf)) (hhead : ps.head? = some p1)
+    (rf : Option Nat) (hcp : collectPresses s.queue [] = .ok (ps, rf)) (hhead : ps.head? = some p1)
     (hget : s.cfg.get p1 = some possible) (hnd : ps.Nodup)
     (hC : C ∈ possible) (hen : enabledOn layer C = true) (hex : exactMatch ps C = true)
     (hroom : s.active.length < ACTIVE_CHORDS_CAP) :
     ∃ s', processPresses s layer = .ok s' ∧ s'.ticksToIgnore = s.ticksToIgnore ∧
-      (((Fk possible layer ps = [C] ∨ minPending (Fk possible layer ps) ≤ sinceOf s ∨ rf = true) ∧
+      (((Fk possible layer ps = [C] ∨ minPending (Fk possible layer ps) ≤ sinceOf s ∨ rf.isSome = true) ∧
         ∃ cch coord, cch ∈ possible ∧ enabledOn layer cch = true ∧ exactMatch ps cch = true ∧
           (Fk possible layer ps = [C] → cch = C) ∧
           s'.active = s.active ++ [getActiveChord cch (sinceOf s) coord rf] ∧
           s'.queue = ppRetain s.queue ps) ∨
-       (2 ≤ (Fk possible layer ps).length ∧ sinceOf s < minPending (Fk possible layer ps) ∧ rf = false ∧
+       (2 ≤ (Fk possible layer ps).length ∧ sinceOf s < minPending (Fk possible layer ps) ∧ rf.isSome = false ∧
         s'.active = s.active ∧ s'.queue = s.queue ∧
         s'.ticksUntilChange = minPending (Fk possible layer ps) - sinceOf s)) := by
   have hne : ps ≠ [] := by intro h; rw [h] at hhead; cases hhead
@@ -506,9 +506,9 @@ theorem chord_v2_exact_set_partial (s : ChV2) (layer : Nat) (ps : List Nat) (p1 
     have hfin_cond : (st.active.length == s.active.length) = true := by rw [hm.active]; simp
     rcases hm.cands with ⟨_, _, hps⟩ | ⟨_, hcands, htu⟩
     · exact absurd hps hne
-    · by_cases hto : minPending (Fk possible layer ps) ≤ sinceOf s ∨ rf = true
+    · by_cases hto : minPending (Fk possible layer ps) ≤ sinceOf s ∨ rf.isSome = true
       · -- the window has closed: the exact match is activated
-        have htu0 : (st.ticksUntil == 0 || rf) = true := by
+        have htu0 : (st.ticksUntil == 0 || rf.isSome) = true := by
           rcases hto with h | h
           · have : st.ticksUntil = 0 := by rw [htu]; omega
             simp [this]
@@ -540,16 +540,16 @@ theorem chord_v2_exact_set_partial (s : ChV2) (layer : Nat) (ps : List Nat) (p1 
             · have : cch ∈ st.cands := by simpa [hlen] using hmem.1
               rw [hcands] at this
               exact (mem_Fk.mp (List.mem_of_mem_take this)).1
-          have hp : pushActive st.active (getActiveChord cch (sinceOf s) st.nextCoord rf) =
-              .ok (st.active ++ [getActiveChord cch (sinceOf s) st.nextCoord rf]) := by
+          have hp : pushActive st.active (getActiveChord cch (sinceOf s) (freeCoord st.active st.nextCoord) rf) =
+              .ok (st.active ++ [getActiveChord cch (sinceOf s) (freeCoord st.active st.nextCoord) rf]) := by
             unfold pushActive
             rw [if_pos (by rw [hm.active]; exact hroom)]
           have hfinal : ppFinal possible layer (sinceOf s) rf s.cfg.minIdle s.active.length st =
-              { st with active := st.active ++ [getActiveChord cch (sinceOf s) st.nextCoord rf],
-                        nextCoord := nextCoordAfter st.nextCoord } := by
+              { st with active := st.active ++ [getActiveChord cch (sinceOf s) (freeCoord st.active st.nextCoord) rf],
+                        nextCoord := nextCoordAfter (freeCoord st.active st.nextCoord) } := by
             unfold ppFinal
             simp only [hfin_cond, htu0, Bool.and_self, if_true, hm.acc, hfind, hp]
-          refine ⟨_, rfl, ?_, Or.inl ⟨Or.inr hto, cch, st.nextCoord, hposs, hmem.2, hexc, ?_, ?_, ?_⟩⟩
+          refine ⟨_, rfl, ?_, Or.inl ⟨Or.inr hto, cch, freeCoord st.active st.nextCoord, hposs, hmem.2, hexc, ?_, ?_, ?_⟩⟩
           · show (ppFinal possible layer (sinceOf s) rf s.cfg.minIdle s.active.length st).ticksToIgnore = _
             rw [hfinal]; exact hm.tti
           · intro hF; rw [hF] at h2; simp at h2
@@ -560,8 +560,8 @@ theorem chord_v2_exact_set_partial (s : ChV2) (layer : Nat) (ps : List Nat) (p1 
             rw [hfinal]
             simp only [hm.active, hm.acc, List.length_append, List.length_cons, List.length_nil, gt_iff_lt, Nat.lt_add_one, if_true]
       · -- still in time and ambiguous: wait
-        have hrf : rf = false := by cases rf <;> simp_all
-        have htu1 : (st.ticksUntil == 0 || rf) = false := by
+        have hrf : rf.isSome = false := by cases rf <;> simp_all
+        have htu1 : (st.ticksUntil == 0 || rf.isSome) = false := by
           have : ¬ minPending (Fk possible layer ps) ≤ sinceOf s := fun h => hto (Or.inl h)
           rw [hrf, htu]; simp; omega
         have hfinal : ppFinal possible layer (sinceOf s) rf s.cfg.minIdle s.active.length st = st := by
@@ -575,8 +575,9 @@ theorem chord_v2_exact_set_partial (s : ChV2) (layer : Nat) (ps : List Nat) (p1 
         · show (if (ppFinal possible layer (sinceOf s) rf s.cfg.minIdle s.active.length st).active.length > s.active.length
               then ppRetain s.queue (ppFinal possible layer (sinceOf s) rf s.cfg.minIdle s.active.length st).acc else s.queue) = _
           rw [hfinal, hm.active]; simp
-        · show (ppFinal possible layer (sinceOf s) rf s.cfg.minIdle s.active.length st).ticksUntil = _
-          rw [hfinal]; exact htu
+        · show (if (ppFinal possible layer (sinceOf s) rf s.cfg.minIdle s.active.length st).active.length > s.active.length
+              then 0 else (ppFinal possible layer (sinceOf s) rf s.cfg.minIdle s.active.length st).ticksUntil) = _
+          rw [hfinal, hm.active]; simp only [gt_iff_lt, Nat.lt_irrefl, if_false]; exact htu
   · -- the loop activated C on the last key
     have hfinal : ppFinal possible layer (sinceOf s) rf s.cfg.minIdle s.active.length st = st := by
       unfold ppFinal
@@ -591,7 +592,39 @@ theorem chord_v2_exact_set_partial (s : ChV2) (layer : Nat) (ps : List Nat) (p1 
           then ppRetain s.queue (ppFinal possible layer (sinceOf s) rf s.cfg.minIdle s.active.length st).acc else s.queue) = _
       rw [hfinal, hact, hacc]; simp
 
-example : collectPresses [⟨.press (0, 48), 3⟩, ⟨.press (0, 30), 1⟩] [] = .ok ([48, 30], false) ∧
+/-! ## 4. After the repairs PENDING-1 .. PENDING-4 (remarks t3) -/
+
+/-- PENDING-2: during the cool-down, events of the virtual-key rows leave the active chords alone, whatever
+their index (before the repair a release at `(1, n)` released the participant with key code `n`) -/
+theorem chord_v2_cooldown_ignores_virtual_rows (s : ChV2) (dq : List Queued) (layer : Nat)
+    (hcool : s.ticksToIgnore > 0) (hq : ∀ qd ∈ s.queue, qd.ev.coord.1 ≠ 0) :
+    drainInputs s dq layer = .ok ({ s with queue := [], active := s.active }, drainExtend dq s.queue) := by
+  have hnil : realInputs s.queue = [] := by
+    unfold realInputs
+    rw [List.filter_eq_nil_iff]
+    intro qd hm
+    simpa using hq qd hm
+  unfold drainInputs
+  simp only [hcool, if_true, hnil, applyReleases, List.foldl_nil]
+
+example : (∀ qd ∈ [(⟨.release (1, 2), 0⟩ : Queued)], qd.ev.coord.1 ≠ 0) := by
+  intro qd h; simp only [List.mem_singleton] at h; subst h; decide
+
+/-- PENDING-3: a chord is created already released only if it is a first-release chord AND the released
+key is one of its participants -/
+theorem chord_v2_created_released_iff (cch : ChordV2) (since coord : Nat) (released : Option Nat) :
+    (getActiveChord cch since coord released).status = .unreadReleased ↔
+      (cch.release = .onFirstRelease ∧ ∃ j, released = some j ∧ cch.keys.contains j = true) := by
+  unfold getActiveChord relHits
+  cases released with
+  | none => simp
+  | some j =>
+    by_cases hk : cch.keys.contains j = true <;> by_cases hr : cch.release = .onFirstRelease <;> simp [hk, hr]
+
+example : (getActiveChord { v2Chord with release := .onFirstRelease } 1 851 (some 46)).status = .unread ∧
+    (getActiveChord { v2Chord with release := .onFirstRelease } 1 851 (some 30)).status = .unreadReleased := ⟨rfl, rfl⟩
+
+example : collectPresses [⟨.press (0, 48), 3⟩, ⟨.press (0, 30), 1⟩] [] = .ok ([48, 30], none) ∧
     exactMatch [48, 30] v2Chord = true ∧ Fk [v2Chord] 0 [48, 30] = [v2Chord] := ⟨rfl, rfl, rfl⟩
 
 end KVerif.C09
